@@ -4,7 +4,7 @@ KINDS = ["na", "nB", "da", "wq", "xq", "rq", "f"]
 
 
 def gen(rng, tier):
-    n_cases = 220 if tier == "quick" else 6000
+    n_cases = 400 if tier == "quick" else 6000
     for i in range(n_cases):
         threads = rng.choice([2, 2, 3, 4, 4, 7, 8, 8, 12, 15, 16, 16])
         r = rng.random()
@@ -83,7 +83,7 @@ MANIFEST = {
                    "acquire/read/write/release steps, arbitrary scheduler and clock readings within one refill second): for ANY number of "
                    "threads, ANY bursts and ANY schedule, when all threads are done exactly min(n, tokens) responses were sent and the rest "
                    "limited (inductive invariant: mutual exclusion, reads current, one token per sent response); progress (no deadlock, no "
-                   "panic); the lockless variant is refuted. Real code: ~220 (quick) stress runs with 2-16 OS threads must give the theorem's count."),
+                   "panic); the lockless variant is refuted. Real code: ~400 (quick) stress runs with 2-16 OS threads must give the theorem's count."),
     "level_note": ("Proof of the model; partial w.r.t. the runtime: correctness of std::sync::Mutex, memory ordering and OS scheduling are "
                    "assumed / sampled by the stress harness, not proved."),
     "technique": "machine-checked proof in Coq (interleaving semantics + inductive invariant, all schedules) + stress correspondence on the real code",
